@@ -17,6 +17,9 @@ Oneway(k) == Req(k, FALSE, TRUE, FALSE, <<>>)
 MoreOneway(k) == Req(k, TRUE, TRUE, FALSE, <<>>)
 UpFlag(k) == Req(k, FALSE, FALSE, TRUE, <<>>)
 Scr(s, more, oneway) == Req(ScriptKind, more, oneway, FALSE, s)
+\* oneway together with upgrade (and more): every flag is independent, oneway silences whatever else is asked for
+OnewayUp(k, more) == Req(k, more, TRUE, TRUE, <<>>)
+OnewayUpSet == {OnewayUp(k, m) : k \in {"GenOk", "GetInfo", "UnknownIface", "GenStream2", "GenNoParams"}, m \in BOOLEAN}
 
 WellFormedKinds == BuiltinKinds \cup RouteKinds \cup GenKinds
 
@@ -30,6 +33,7 @@ AlphaFull ==
   \cup {Oneway(k) : k \in WellFormedKinds \ {"GenUp"}}
   \cup {MoreOneway(k) : k \in {"GenStream2", "GetInfo", "NoDot"}}
   \cup {UpFlag(k) : k \in {"GenOk", "GenUp", "GetInfo", "UnknownIface"}}
+  \cup OnewayUpSet
   \cup {Scr(s, m, o) : s \in RepScripts, m \in BOOLEAN, o \in BOOLEAN}
 
 \* two representatives per control class (see DESIGN 3: sizing rule)
@@ -48,6 +52,7 @@ AlphaOneway ==
   \cup {MoreOneway(k) : k \in {"GenStream2", "GetInfo", "NoDot"}}
   \cup {Scr(s, m, TRUE) : s \in RepScripts, m \in BOOLEAN}
   \cup {None(k) : k \in {"GenOk", "UnknownIface"}} \cup {More("GenStream2")}
+  \cup OnewayUpSet
 
 \* all scripts over the reply-relevant steps up to length 4, every flag combination (C05)
 ScriptSteps == {"c1", "c0", "r", "R", "e"}
